@@ -14,6 +14,9 @@ const LUAU_RC_FILE_NAME: &str = ".luaurc";
 pub(crate) struct LuauConfiguration {
     #[serde(default)]
     pub(crate) aliases: HashMap<String, PathBuf>,
+    /// where the configuration was read from
+    #[serde(skip)]
+    pub(crate) path: PathBuf,
 }
 
 fn find_luau_configuration_private(
@@ -51,6 +54,7 @@ fn find_luau_configuration_private(
                             log::trace!(" ⨽ parsed alias `{}` (`{}`)", key, value.display())
                         })
                         .collect();
+                    config.path = normalize_path(&config_path);
 
                     Some(config)
                 })
